@@ -428,6 +428,8 @@ func checkC04(c *Ctx) {
 	ruleEOLFlagOnConsumption(c, "C04.i")
 	c.rule("C04.j", "on the server only DiscardLine reads free text to the end of the line (a handler must not swallow a trailing literal header)", 1)
 	ruleNoFreeTextInHandlers(c, "C04.j")
+	c.rule("C04.k", "bytes read raw from the connection enter error messages only quoted (no CR/LF inside a response line)", 1)
+	ruleWireBytesQuotedInErrors(c, "C04.k")
 	c.assume("an I/O error returned by a tagged writer means the connection is dead; a second write attempt is not counted as a second completion")
 
 	readCommand := p.Func("imapserver", "Conn", "readCommand")
